@@ -221,7 +221,7 @@ CHECKS["C05"] = {
     ],
     "mandatory_labels": {"all": ["crypto/kind=account", "crypto/kind=contact", "crypto/kind=multimember", "crypto/counter>=128", "crypto/messages-before-announcement",
                                  "distribution/multimember", "distribution/activated-before-seeing-anyone", "distribution/second-device-after-secrets",
-                                 "concurrent/dfs-schedules", "concurrent/first-use-of-the-chain-key", "distribution/entries-received-before-activation", "write-fault/fired", "read-fault/fired"]},
+                                 "concurrent/dfs-schedules", "concurrent/first-use-of-the-chain-key", "distribution/entries-received-before-activation", "write-fault/fired", "read-fault/fired", "distribution/reactivation"]},
 }
 
 CHECKS["C04"] = {
@@ -442,7 +442,7 @@ _ADDED6 = {
     "C01": "Single transient datastore write or read failures during opens (an honest message refused for good because of one is a violation).",
     "C03": "Forged entries also arrive by replication from a branch concurrent with the victim's history (a replica that merged nothing, Lamport time 1).",
     "C04": "Controlled schedules (DFS + rapid) of overlapping index passes of the writer's task and the replication task over a log that grows meanwhile (instrumented index; the final state must be the state of the entries held).",
-    "C05": "Single transient datastore write or read failures while an announcement is registered, also a re-delivered one (an announced key must be usable).",
+    "C05": "Single transient datastore write or read failures while an announcement is registered, also a re-delivered one (an announced key must be usable). Distribution half: one device may deactivate the group after its activation and activate it again at the end (others join meanwhile).",
     "C06": "Signatures ground against small-order keys.",
     "C07": "Contacts whose key is not a point of the curve.",
     "C08": "Group-context layer with an undecodable entry inside a delivered batch.",
